@@ -13,7 +13,7 @@ import (
 
 func init() {
 	register("C38", propMeta{
-		Explanation:  "Decides one clause - which storage the process-wide L1 node cache can share with what the read API hands out: (R1) Node.CopyTo is the materialisation point between the cache's clone and a transaction's node; Item.Value is a pointer, so a plain slice copy of the slots leaves every copy pointing at the same value object: CopyTo (or the read API) must detach Item.Value - allocate a fresh value per slot - otherwise an in-place mutation of a value obtained from GetCurrentValue / GetCurrentItem is seen by every later transaction served from the cache; (R2) the cache hands out materialised copies only: every node value returned by an L1Cache method is nil, the caller's own target object, or the result of materializeCacheValue (CopyTo / decode into the target) - never the cached instance itself, into which a read would write fetched values; (R3) what is stored in the cache is a clone (cloneCacheNodeValue) of the caller's node, never the caller's instance. (R4) the fetched-value marker is written through a pointer into the node's slot, never into a local copy of the item.",
+		Explanation:  "Decides one clause - which storage the process-wide L1 node cache can share with what the read API hands out: (R1) Node.CopyTo is the materialisation point between the cache's clone and a transaction's node; Item.Value is a pointer, so a plain slice copy of the slots leaves every copy pointing at the same value object: CopyTo (or the read API) must detach Item.Value - allocate a fresh value per slot - otherwise an in-place mutation of a value obtained from GetCurrentValue / GetCurrentItem is seen by every later transaction served from the cache; (R2) the cache hands out materialised copies only: every node value returned by an L1Cache method is nil, the caller's own target object, or the result of materializeCacheValue (CopyTo / decode into the target) - never the cached instance itself, into which a read would write fetched values; (R3) what is stored in the cache is a clone (cloneCacheNodeValue) of the caller's node, never the caller's instance. (R4) the fetched-value marker is written through a pointer into the node's slot, never into a local copy of the item. (R5) Btree.setCurrentItemID calls unfetchCurrentValue before it writes currentItem or currentItemRef, because unfetchCurrentValue works on the item the cursor still points to; no other Btree method moves currentItemRef field by field.",
 		DoesNotCover: "Aliasing inside decoded values themselves (encoding layers that pass byte slices through), values of stores whose items are fetched from a separate segment on every read, and mutation of keys are not decided; no points-to analysis is available, so this is a copy-shape argument.",
 	}, runC38)
 }
@@ -85,6 +85,66 @@ func runC38(c *Ctx) {
 			}
 		}
 		c.Check(nSites >= 3, r4, "valueWasFetched = true sites inventoried", token.NoPos, fmt.Sprintf("%d sites", nSites), fmt.Sprintf("only %d sites", nSites), nil)
+	}
+
+	r5 := c.Rule("R5", "the cursor drops the fetched value of the item it leaves: Btree.setCurrentItemID calls unfetchCurrentValue before it touches the cursor (currentItem, currentItemRef), because unfetchCurrentValue works on the item the cursor still points to; nobody else in package btree moves currentItemRef field by field", 3)
+	{
+		f := w.Fn("btree.Btree.setCurrentItemID")
+		g := w.G(f)
+		c.Analysed(f)
+		cur := w.Field("btree", "Btree", "currentItem")
+		ref := w.Field("btree", "Btree", "currentItemRef")
+		info := f.Pkg.TypesInfo
+		unf := calls("btree.Btree.unfetchCurrentValue")
+		touchesCursor := func(n *GNode) bool {
+			as, ok := n.Ast.(*ast.AssignStmt)
+			if !ok {
+				return false
+			}
+			for _, l := range as.Lhs {
+				hit := false
+				ast.Inspect(l, func(x ast.Node) bool {
+					if sel, ok := x.(*ast.SelectorExpr); ok {
+						if fo := fieldOfSelector(info, sel); fo == cur || fo == ref {
+							hit = true
+						}
+					}
+					return true
+				})
+				if hit {
+					return true
+				}
+			}
+			return false
+		}
+		nw := len(g.Find(touchesCursor))
+		c.Check(nw >= 2 && len(g.Find(unf)) >= 1, r5, "setCurrentItemID: cursor writes and the unfetch call inventoried", f.Decl.Pos(), fmt.Sprintf("%d cursor writes", nw), fmt.Sprintf("%d cursor writes, %d unfetch calls", nw, len(g.Find(unf))), nil)
+		offs := g.MustPrecede(unf, touchesCursor)
+		c.Offences(g, offs, r5, "setCurrentItemID: unfetchCurrentValue precedes every write of the cursor", f.Decl.Pos(), "unfetch first",
+			"the cursor is changed before unfetchCurrentValue ran: unfetchCurrentValue works on btree.currentItem, so it no longer sees the item being left and the value fetched for the reader stays inline in the transaction's node slot - when that transaction later persists the node (a sibling item is updated) the reader's possibly modified value object is written and cached, and later transactions read a value nobody wrote")
+		// field-wise cursor moves elsewhere in the package
+		var others []string
+		var pos token.Pos
+		for _, fn := range w.declaredFuncs("btree") {
+			if fn == f || !strings.HasPrefix(fn.Key, "btree.Btree.") {
+				continue
+			}
+			fi := fn.Pkg.TypesInfo
+			ast.Inspect(fn.Body, func(x ast.Node) bool {
+				as, ok := x.(*ast.AssignStmt)
+				if !ok {
+					return true
+				}
+				for _, l := range as.Lhs {
+					if sel, ok := ast.Unparen(l).(*ast.SelectorExpr); ok && fieldOfSelector(fi, sel.X) == ref {
+						others = append(others, shortKey(fn.Key))
+						pos = as.Pos()
+					}
+				}
+				return true
+			})
+		}
+		c.Check(len(others) == 0, r5, "only setCurrentItemID moves Btree.currentItemRef", pos, "no other writer", fmt.Sprintf("%v also move the cursor position without unfetching the item left", dedup(others)), nil)
 	}
 }
 
